@@ -719,6 +719,7 @@ package binary
 
 //@ contract (*Writer).writeStruct
 //@   props C02
+//@   errsfromcallees
 //@   requires bwValid(bw)
 //@   let w = bw.sw.writer
 //@   let q0 = wlen(bw.sw.writer)
@@ -734,6 +735,7 @@ package binary
 
 //@ contract (*Writer).realWriteMapItem
 //@   props C02
+//@   errsfromcallees
 //@   requires bwValid(bw)
 //@   let w = bw.sw.writer
 //@   let q0 = wlen(bw.sw.writer)
@@ -744,6 +746,7 @@ package binary
 
 //@ contract (*Writer).writeMap
 //@   props C02
+//@   errsfromcallees
 //@   requires bwValid(bw)
 //@   let w = bw.sw.writer
 //@   let q0 = wlen(bw.sw.writer)
@@ -755,6 +758,7 @@ package binary
 
 //@ contract (*Writer).writeSet
 //@   props C02
+//@   errsfromcallees
 //@   requires bwValid(bw)
 //@   let w = bw.sw.writer
 //@   let q0 = wlen(bw.sw.writer)
@@ -766,6 +770,7 @@ package binary
 
 //@ contract (*Writer).writeList
 //@   props C02
+//@   errsfromcallees
 //@   requires bwValid(bw)
 //@   let w = bw.sw.writer
 //@   let q0 = wlen(bw.sw.writer)
@@ -836,6 +841,7 @@ package binary
 
 //@ contract (*reader).readStructStream
 //@   props C02 C03
+//@   errsfromcallees
 //@   requires validRd(r)
 //@   use orView(r.or)
 //@   let a = rin(r.or.reader)
@@ -860,6 +866,7 @@ package binary
 
 //@ contract (*reader).readListStream
 //@   props C02 C03
+//@   errsfromcallees
 //@   requires validRd(r)
 //@   use orView(r.or)
 //@   let a = rin(r.or.reader)
@@ -876,6 +883,7 @@ package binary
 
 //@ contract (*reader).readSetStream
 //@   props C02 C03
+//@   errsfromcallees
 //@   requires validRd(r)
 //@   use orView(r.or)
 //@   let a = rin(r.or.reader)
@@ -892,6 +900,7 @@ package binary
 
 //@ contract (*reader).readMapStream
 //@   props C02 C03
+//@   errsfromcallees
 //@   requires validRd(r)
 //@   use orView(r.or)
 //@   let a = rin(r.or.reader)
@@ -921,6 +930,7 @@ package binary
 
 //@ contract (*Reader).ReadValue
 //@   props C02 C03 C12
+//@   errsfromcallees
 //@   requires br != nil && off >= 0 && off <= 4611686018427387904
 //@   let a = rin(br.reader)
 //@   modifies all
@@ -965,6 +975,7 @@ package binary
 
 //@ contract (*lazyValueList).ForEach
 //@   props C02 C03
+//@   errsfromcallees
 //@   requires ll != nil && ll.count >= 0 && ll.startOffset >= 0 && ll.startOffset <= 4611686018427387904
 //@   let a = rin(ll.readerAt)
 //@   let c0 = fecalls(ll)
@@ -1007,6 +1018,7 @@ package binary
 
 //@ contract (*lazyMapItemList).ForEach
 //@   props C02 C03
+//@   errsfromcallees
 //@   requires lm != nil && lm.count >= 0 && lm.startOffset >= 0 && lm.startOffset <= 4611686018427387904
 //@   let a = rin(lm.readerAt)
 //@   let c0 = fecalls(lm)
@@ -1057,6 +1069,7 @@ package binary
 
 //@ contract (*Reader).readNonStrictNameType
 //@   props C12
+//@   errsfromcallees
 //@   requires bw != nil
 //@   let a = rin(bw.reader)
 //@   modifies all
@@ -1069,6 +1082,7 @@ package binary
 
 //@ contract (*Reader).ReadEnveloped
 //@   props C12
+//@   errsfromcallees
 //@   requires bw != nil
 //@   let a = rin(bw.reader)
 //@   let v = int32(be32at(rin(bw.reader), 0))
@@ -1099,6 +1113,7 @@ package binary
 
 //@ contract (*Writer).WriteEnveloped
 //@   props C12
+//@   errsfromcallees
 //@   requires bwValid(bw) && e.Type >= 0 && len(e.Name) <= 2147483647
 //@   let w = bw.sw.writer
 //@   let q0 = wlen(bw.sw.writer)
@@ -1114,6 +1129,7 @@ package binary
 
 //@ contract (*Writer).WriteLegacyEnveloped
 //@   props C12
+//@   errsfromcallees
 //@   requires bwValid(bw) && len(e.Name) <= 2147483647
 //@   let w = bw.sw.writer
 //@   let q0 = wlen(bw.sw.writer)
@@ -1148,6 +1164,7 @@ package binary
 
 //@ contract (*Protocol).DecodeEnveloped
 //@   props C12
+//@   errsfromcallees
 //@   let a = rin(r)
 //@   let v = int32(be32at(rin(r), 0))
 //@   modifies all
@@ -1162,6 +1179,7 @@ package binary
 
 //@ contract (*Protocol).Decode
 //@   props C02 C12
+//@   errsfromcallees
 //@   let a = rin(r)
 //@   modifies all
 //@   ensures(typ) err == nil ==> result0.typ == t && knownty(t)
